@@ -71,7 +71,7 @@ def table_selection(wd, v):
         if "db_error" in o or "panic" in o:
             raise vlib.ToolError("table selection: %s" % (o.get("db_error") or o.get("panic")))
         seen = {}
-        for r_ in o["results"]:
+        for r_ in o.get("results", []):
             for k, w in want.items():
                 x = r_.get(k)
                 if not x:
